@@ -65,6 +65,8 @@ package messageview
 //@   modifies req.Body, mv.message, mv.chunked, mv.compress, mv.bodyoffset, mv.traileroffset, mvReadSrc, mvReadData, mvReaderData, mvReader, mvNopSrc, mvNop
 //@   ensures[offsets-ordered] result == nil ==> 0 <= mv.bodyoffset && mv.bodyoffset <= mv.traileroffset && mv.traileroffset <= len(mv.message)
 //@   ensures[untouched-body-keeps-its-handle] result == nil && mv.traileroffset == mv.bodyoffset && old(req.Body) == nil ==> req.Body == old(req.Body)
+//@   ensures[chunked-recorded-from-the-last-transfer-coding; C15 C16] (len(req.TransferEncoding) > 0 ==> mv.chunked == (req.TransferEncoding[len(req.TransferEncoding) - 1] == "chunked")) &&
+//@        (len(req.TransferEncoding) == 0 ==> mv.chunked == old(mv.chunked))
 //@   ensures[replaced-body-reads-the-bytes-of-the-old-one] req.Body != old(req.Body) ==> req.Body == mvNop && mvNopSrc == iface(mvReader) && mvReaderData == mvReadData && mvReadSrc == old(req.Body)
 //@   at call 1 of Bytes before assert[chunked-message-ends-with-the-blank-line] mv.chunked ==> buf.mvEndsBlank
 
@@ -94,6 +96,11 @@ package messageview
 //@   modifies nothing
 
 // Readers over the snapshot (assumed: they read the snapshot buffer only).
+// bodyFramed: the reader handed out last still delivers the chunk framing of the snapshot (the snapshot stores a
+// chunked body in chunked form; only the Decode option removes the framing).
+//@ ghost var bodyFramed bool
 //@ func (*MessageView).BodyReader
 //@   trusted
+//@   modifies bodyFramed
 //@   ensures (result1 == nil) == (result0 != nil)
+//@   ensures bodyFramed == (mv.chunked && len(opts) == 0)
